@@ -120,7 +120,118 @@ pub fn profile(family: &str) -> Profile {
 }
 
 pub fn generate(family: &str, rng: &mut Rng) -> Case {
-    gen_actor(&profile(family), rng)
+    match family {
+        "C08" => gen_registry(rng),
+        _ => gen_actor(&profile(family), rng),
+    }
+}
+
+/// C08: concurrent histories of registry operations on 1-2 service types by 1-4 tasks, with
+/// stop / halt / self-termination of the instances in between.
+fn gen_registry(rng: &mut Rng) -> Case {
+    let ntypes = 1 + rng.below(2);
+    let nclients = 1 + rng.below(4);
+    let mut next_h = 0usize;
+    let mut next_a = 50usize;
+    let mut next_m = 0usize;
+    let mut clients: Vec<Vec<Op>> = vec![];
+    let mut nops_total = 0;
+    for _ in 0..nclients {
+        let mut ops: Vec<Op> = vec![];
+        let mut owned: Vec<usize> = vec![];
+        let nops = 1 + rng.below(5);
+        for _ in 0..nops {
+            let k = 1 + rng.below(ntypes);
+            let mut h = || {
+                next_h += 1;
+                next_h
+            };
+            match rng.below(14) {
+                0 | 1 | 2 => {
+                    let h2 = h();
+                    ops.push(Op::FromRegistry { k, h2 });
+                    owned.push(h2);
+                }
+                3 => ops.push(Op::Setup { k }),
+                4 | 5 => {
+                    let (hh, h2, h3) = (h(), h(), h());
+                    let a = next_a;
+                    next_a += 1;
+                    let spec = SpawnSpec { k, ..default_spec() };
+                    ops.push(Op::Spawn { a, spec, h: hh });
+                    if rng.chance(1, 4) {
+                        // register an instance that has already been stopped
+                        ops.push(Op::Stop { h: hh });
+                        ops.push(Op::Sleep(1));
+                    }
+                    if rng.chance(2, 3) {
+                        ops.push(Op::Register { h: hh, h2, h3 });
+                        owned.push(h2);
+                        owned.push(h3);
+                    } else {
+                        ops.push(Op::Replace { h: hh, h3 });
+                        owned.push(h3);
+                    }
+                }
+                6 => {
+                    let h2 = h();
+                    ops.push(Op::Unregister { k, h2 });
+                    owned.push(h2);
+                }
+                7 | 8 => {
+                    let h2 = h();
+                    ops.push(Op::TryFromRegistry { k, h2 });
+                    owned.push(h2);
+                }
+                9 | 10 => ops.push(Op::AlreadyRunning { k }),
+                11 | 12 => {
+                    if !owned.is_empty() {
+                        let hh = *rng.pick(&owned);
+                        match rng.below(4) {
+                            0 => ops.push(Op::Stop { h: hh }),
+                            1 => {
+                                ops.push(Op::Halt { h: hh });
+                                owned.retain(|x| *x != hh);
+                            }
+                            2 => {
+                                next_m += 1;
+                                ops.push(Op::Send { h: hh, m: next_m, script: vec![Act::CtxStop] });
+                            }
+                            _ => {
+                                ops.push(Op::Drop { h: hh });
+                                owned.retain(|x| *x != hh);
+                            }
+                        }
+                    } else {
+                        ops.push(Op::Yield);
+                    }
+                }
+                _ => {
+                    if rng.chance(1, 2) {
+                        ops.push(Op::Sleep(1 + rng.below(3) as u64))
+                    } else {
+                        ops.push(Op::Yield)
+                    }
+                }
+            }
+        }
+        nops_total += ops.len();
+        clients.push(ops);
+    }
+    let prompt = rng.chance(5, 10);
+    Case {
+        program: Program { setup: vec![], clients },
+        sched: sched(rng),
+        prompt,
+        horizon: 100,
+        cancel: None,
+        tags: vec![
+            format!("types={}", ntypes),
+            format!("clients={}", nclients),
+            format!("ops={}", nops_total),
+            format!("prompt={}", prompt as u8),
+        ],
+    }
 }
 
 struct G<'a> {
